@@ -30,6 +30,12 @@ func NewDG14(data []byte) (dg14 *DG14, err error) {
 		return nil, fmt.Errorf("[NewDG14] error: %w", err)
 	}
 
+	// the file is ONE data object: the outer tag is that of the first object, and anything behind it would be
+	// covered by the hash in the security object but never shown
+	if len(nodes.Nodes()) != 1 {
+		return nil, fmt.Errorf("[NewDG14] file must consist of exactly one data object (found %d)", len(nodes.Nodes()))
+	}
+
 	rootNode := nodes.NodeByTag(DG14Tag)
 
 	if !rootNode.IsValidNode() {
